@@ -467,6 +467,7 @@ bool OPNMIDIplay::realTime_NoteOn(uint8_t channel, uint8_t note, uint8_t velocit
         dummy.isBlank = true;
         dummy.isOnExtendedLifeTime = false;
         dummy.ttl = 0;
+        dummy.glideRate = HUGE_VAL;
         dummy.ains = NULL;
         dummy.chip_channels_count = 0;
         // Record the last note on MIDI channel as source of portamento
